@@ -12,7 +12,7 @@ package fastq
 // non-nil error (I/O error or token too long); done = Scan has returned false.
 
 //@ func reader.read
-//@   props C02 C07 C11 C18
+//@   props C02 C07 C11 C18 C06
 //@   let S := r.s
 //@   let p0 := old(r.s.pos)
 //@   let d0 := old(r.s.done)
@@ -36,7 +36,7 @@ package fastq
 //@             len(S.lines[p0+3]) == len(S.lines[p0+1]) ==> result.1 == nil
 
 //@ func reader.iter
-//@   props C02 C07 C18
+//@   props C02 C07 C18 C06
 //@   yields Y
 //@   ensures forall t int :: 0 <= t && t < len(Y) && Y[t].1 != nil ==> t == len(Y)-1
 //@   ensures forall t int :: 0 <= t && t < len(Y) ==> (Y[t].1 != nil <==> Y[t].0 == nil)
@@ -62,7 +62,7 @@ package fastq
 //@     splitvar t == IT - 1
 
 //@ func Reader
-//@   props C06 C07 C18
+//@   props C06 C07 C18 C02
 //@   yields Y
 //@   ensures forall t int :: 0 <= t && t < len(Y) && Y[t].1 != nil ==> t == len(Y)-1
 //@   ensures forall t int :: 0 <= t && t < len(Y) ==> (Y[t].1 != nil <==> Y[t].0 == nil)
